@@ -283,9 +283,75 @@ def rule_carry(prog, rep):
             rep.instance("C13.CARRY", "%s: no loop-carried named local decides a branch (%d loop-carried locals of non-exempt type looked at), no builder field is written outside the definitions loop" % (fn.name.split("::")[-3] if "::<" in fn.name else fn.name.split("::")[-2], len(cand)))
 
 
+def rule_deffirst(prog, rep):
+    """C13.DEFFIRST: an extension that comes before its definition is queued and handed to
+    `<X>::from_ast(errors, definition, extensions)`.  For the built schema not to depend on where
+    the extension stood, the constructor must add the definition's own components first and apply
+    the queued extensions afterwards (as `extend_ast` does for extensions that come later): no
+    component of `definition` (any field except its name, used in messages) is read on a path
+    that has already applied an extension."""
+    rep.floor("C13.DEFFIRST", 7)
+    fs = [f for f in prog.fns.values()
+          if re.search(r"^apollo_compiler::schema::from_ast::<impl apollo_compiler::schema::\w+>::from_ast$", f.name)]
+    for f in sorted(fs, key=lambda g: g.name):
+        names = [n for (_, n) in f.d["locals"][:f.d["argc"] + 1]]
+        if "definition" in names and "extensions" in names:
+            di = names.index("definition")
+        else:
+            # by type: the Node<ast::..Definition> parameter next to a Vec / slice of extensions
+            di = None
+            for i, (t, _) in enumerate(f.d["locals"][:f.d["argc"] + 1]):
+                if i and re.search(r"Node<apollo_compiler::ast::\w+Definition>", t):
+                    di = i
+            if di is None or f.d["argc"] < 3:
+                continue
+        kind = f.name.split("schema::")[-1].split(">")[0]
+        ext = [c for c in f.live_calls() if re.search(r"::extend_ast$", c.name)]
+        if not ext:
+            rep.finding("C13.DEFFIRST", f.name, "no-extend", "%s::from_ast does not apply the queued extensions" % kind, f.loc())
+            continue
+        succs = f.succs()
+        after, work = set(), [c.target for c in ext if c.target is not None]
+        while work:
+            b = work.pop()
+            if b in after:
+                continue
+            after.add(b)
+            work.extend(succs[b])
+        late = []
+        # a direct read: the operand itself is `definition.<field>` (the symbolic value of an
+        # operand computed earlier also mentions the fields it was built from - not a read here)
+        pat = re.compile(r"^[&*( ]*<Node<T> as Deref>::deref\(&\*?arg%d\)\)?\.(\w+)" % di)
+        for c in f.live_calls():
+            if c.block not in after:
+                continue
+            for a in c.args:
+                m = pat.match(f.sym(a))
+                if m and m.group(1) != "name":
+                    late.append((m.group(1), c))
+        for b in sorted(after):
+            for st in f.stmts(b):
+                if st[0] == "=" and st[2][0] in ("use", "ref"):
+                    try:
+                        v = f.sym(st[2][1]) if st[2][0] == "use" else f.sym(["c", st[2][2]])
+                    except Exception:
+                        continue
+                    m = pat.match(v)
+                    if m and m.group(1) != "name":
+                        late.append((m.group(1), ext[0]))
+        rep.obligation(not late)
+        if late:
+            fld, c = late[0]
+            rep.finding("C13.DEFFIRST", f.name, "late:" + fld,
+                        "%s::from_ast reads the definition's `%s` after queued extensions have been applied: an `extend` that stands before the definition now takes precedence over (or is ordered before) the definition's own %s, while the same extension after the definition does not - the built schema depends on the position of the extension" % (kind, fld, fld), c.loc())
+        else:
+            rep.instance("C13.DEFFIRST", "%s::from_ast: all components of the definition are added before the first queued extension is applied" % kind)
+
+
 def run(prog, rep):
     rule_mismatch(prog, rep)
     rule_sticky(prog, rep)
     rule_orphan(prog, rep)
     rule_fileid(prog, rep)
     rule_carry(prog, rep)
+    rule_deffirst(prog, rep)
